@@ -22,7 +22,7 @@ from . import c10, common, sampling
 
 PROPERTY = "C13"
 
-EXC_KINDS = ["OSError:EIO", "OSError:ENOSPC", "MemoryError", "RuntimeError", "KeyboardInterrupt"]
+EXC_KINDS = ["OSError:EIO", "OSError:ENOSPC", "MemoryError", "RuntimeError", "KeyboardInterrupt", "ValueError"]
 
 
 class SimOSError(OSError):
@@ -39,6 +39,8 @@ def make_exc(kind, site):
         return MemoryError(msg)
     if kind == "KeyboardInterrupt":
         return KeyboardInterrupt(msg)
+    if kind == "ValueError":
+        return ValueError(msg)
     return RuntimeError(msg)
 
 
@@ -68,6 +70,20 @@ def generate(seed, tier="quick"):
         kw.pop("max_prior_samples", None)
         kw["n_batches"] = rnd.choice([None, 1, 2, 3])
         op["kw"] = kw
+    if rnd.random() < 0.03:
+        # an EMPTY library object (a selection that kept nothing): the call fails by itself -- a failing exit path
+        # without any injected fault; the cache file must still be gone afterwards
+        lib["n"] = 0
+        lib["view"] = None
+        lib["duplicates"] = []
+        kind2 = rnd.choice(["mll", "rejection", "iterative"])
+        op = {"id": 0, "op": kind2, "data": 0, "lib": 0, "source": "object", "in_memory": False}
+        if kind2 == "mll":
+            op["n_batches"] = rnd.choice([None, 1, 2])
+        elif kind2 == "rejection":
+            op["kw"] = {"n_linear_samples": 1, "n_batches": rnd.choice([None, 1, 2])}
+        else:
+            op["kw"] = {"n_requested_samples": 1, "init_batch_size": 1, "n_linear_samples": 1}
     if rnd.random() < 0.05:
         # prior samples requested by COUNT: prior.sample (pm.draw, pm.logp) runs inside rejection_sample, then the
         # cache path.  Every trial costs several pytensor evaluations, so only a bounded sample of crash points,
@@ -340,7 +356,23 @@ def run(program):
         j0, rng0, pool0 = T.fresh()
         out0, err0, trace = T.inj.dry_run(lambda: T.call(j0))
         if err0 is not None:
-            res["harness_error"] = "fault-free dry run raised: %r" % (err0,)
+            if not isinstance(err0, Exception) or program["config"]["libraries"][0]["n"] > 0:
+                res["harness_error"] = "fault-free dry run raised: %r" % (err0,)
+                return res
+            # the call fails by itself (empty library): a failing exit path without an injected fault
+            probes["fault_free_call_raises(empty library)"] = 1
+            left = [n for n in T.tmp_names if os.path.exists(n)]
+            new_files = T._listing() - T.listing0
+            if left or new_files:
+                v.append(Violation(PROPERTY, "C13.leak", "C13:%s:cache:cache-file-left-behind-when-the-call-fails-by-itself" % op["op"], "after %r: %s" % (err0, [os.path.basename(x) for x in list(set(left) | new_files)][:3])))
+            del T.tmp_names[:]
+            res["violations"] = v
+            res["distinct"] = ["natural-failure:%s" % op["op"]]
+            res["n_ops"] = 1
+            res["steps"] = log.step
+            res["event_counts"] = dict(log.counts)
+            res["digest"] = log.digest()
+            res["sample"] = {"op": op, "library_n": 0, "note": "call fails by itself: %s" % type(err0).__name__}
             return res
         log.add("dry-run", op["op"], {"n_calls": len(trace)}, None)
         T.ref_out = capture(out0)
